@@ -46,6 +46,8 @@ structure Ake where
   revealKey : AkeKeys := {}
   sigKey : AkeKeys := {}
   ssid : Bytes := List.replicate 8 0
+  /-- whether we sent the Reveal Signature message of the exchange in progress (repaired code) -/
+  sentRevealSig : Bool := false
   state : AuthState := .none
   keys : Keys := {}
   lastStateChange : Option Nat := none
@@ -305,9 +307,9 @@ def parseFragmentPrefix (data : Bytes) : M (Bytes × Bool × Bool) := do
   | some .v2 =>
     if data.length < 5 then return (data, false, false) else return (data.drop 5, false, true)
   | some .v3 =>
-    if data.length < 23 then return (data, false, false)
-    let header := data.take 23
-    let headerPart := (splitOn 44 header).headD []
+    -- repaired code: "?OTR|%x|%x," — the header ends at the first comma, whatever the width of the tags
+    if !data.contains 44 then return (data, false, false)
+    let headerPart := (splitOn 44 data).headD []
     match splitOn 124 headerPart with
     | _ :: s :: r :: _ =>
       match parseItag s, parseItag r with
@@ -320,7 +322,7 @@ def parseFragmentPrefix (data : Bytes) : M (Bytes × Bool × Bool) := do
         match res with
         | 1 => return (data, false, false)
         | 2 => return (data, true, true)
-        | _ => return (data.drop 23, false, true)
+        | _ => return (data.drop (headerPart.length + 1), false, true)
       | _, _ => return (data, false, false)
     | _ => return (data, false, false)
 
@@ -466,12 +468,13 @@ def optNat (site : String) : Option Nat → M Nat
 /-- generateEncryptedSignature(key) → AppendData(nil, xb) -/
 def generateEncryptedSignature (K : Crypto) (key : AkeKeys) : M Bytes := do
   let c ← getc
+  -- repaired code: without a long-term key the exchange fails with an error (was: nil dereference)
+  let pk ← match c.ourCurrentKey with
+    | some k => pure k
+    | none => throw (.other "no private key to sign the key exchange with")
   let a ← getAke
   let ours ← optNat "generateEncryptedSignature: nil ourPublicValue" a.ourPublicValue
   let theirs ← optNat "generateEncryptedSignature: nil theirPublicValue" a.theirPublicValue
-  let pk ← match c.ourCurrentKey with
-    | some k => pure k
-    | none => goPanic "generateEncryptedSignature: nil ourCurrentKey"
   let verifyData := appendAll ours theirs pk a.keys.ourKeyID
   let mb := K.mac2 key.m1 verifyData
   let xb := appendWord pk.serialize a.keys.ourKeyID
@@ -645,7 +648,8 @@ def akeSetOurCurrent : M Unit := do
 /-- akeHasFinished; returns the error of generateNewDHKeyPair (state is changed regardless) -/
 def akeHasFinished (K : Crypto) : M (Option Err) := do
   let a ← getAke
-  modc fun c => { c with keys := a.keys, ssid := if c.msgState == .encrypted then a.ssid else c.ssid }
+  modc fun c => { c with keys := a.keys, ssid := if c.msgState == .encrypted then a.ssid else c.ssid,
+                         sentRevealSig := if c.msgState == .encrypted then a.sentRevealSig else c.sentRevealSig }
   modAke fun a => a.wiped
   let c ← getc
   let prev := c.msgState
@@ -718,7 +722,8 @@ def recvDHKey (K : Crypto) (s : AuthState) (msg : Bytes) : M (AuthState × Optio
     let m ← wrapMessageHeader msgTypeRevealSig m
     akeSetTheirCurrent
     akeSetOurCurrent
-    modc fun c => { c with sentRevealSig := true }
+    modAke fun a => { a with sentRevealSig := true }
+    modc fun c => if c.msgState != .encrypted then { c with sentRevealSig := true } else c
     return (.awaitingSig m, some m, none)
   | .awaitingSig rs => akeTry s do
     let same ← processDHKey msg
@@ -732,6 +737,7 @@ def recvRevealSig (K : Crypto) (s : AuthState) (msg : Bytes) : M (AuthState × O
     let m ← wrapMessageHeader msgTypeSig m
     akeSetTheirCurrent
     akeSetOurCurrent
+    modAke fun a => { a with sentRevealSig := false }
     modc fun c => { c with sentRevealSig := false }
     let e ← akeHasFinished K
     return (.none, some m, e)
@@ -1318,8 +1324,7 @@ def extractInstanceTags (m : Bytes) : Option (Nat × Nat) :=
           | some (receiver, _) => some (receiver, sender)
       | _ => none
   else if hasPrefix m (strBytes "?OTR|") then
-    if m.length < 23 then none else
-    let headerPart := (splitOn 44 (m.take 23)).headD []
+    let headerPart := (splitOn 44 m).headD []
     match splitOn 124 headerPart with
     | _ :: s :: r :: _ =>
       match parseItag s, parseItag r with
